@@ -75,12 +75,15 @@ type Call17 struct {
 }
 
 type CaseC17 struct {
-	Tools    []Tool17 `json:"tools"`
-	Calls    []Call17 `json:"calls"`
-	Handler  bool     `json:"handler"`  // unknown-tool handler configured
-	Where    string   `json:"where"`    // standalone | graph
-	Paradigm string   `json:"paradigm"` // invoke | stream | collect | transform
-	Order    []int    `json:"order"`    // completion order (permutation keys)
+	Tools   []Tool17 `json:"tools"`
+	Calls   []Call17 `json:"calls"`
+	Handler bool     `json:"handler"` // unknown-tool handler configured
+	// StaleList: the call carries two tool-list options: first a list holding only a tool for the name the calls use
+	// as unknown name, then the real list.  The later list replaces the earlier one, so that name stays unknown.
+	StaleList bool   `json:"stalelist,omitempty"`
+	Where     string `json:"where"`    // standalone | graph
+	Paradigm  string `json:"paradigm"` // invoke | stream | collect | transform
+	Order     []int  `json:"order"`    // completion order (permutation keys)
 }
 
 type toolErr struct {
@@ -247,6 +250,7 @@ func genC17(t *rapid.T) CaseC17 {
 		c.Calls = append(c.Calls, cl)
 	}
 	c.Handler = rapid.Bool().Draw(t, "handler")
+	c.StaleList = rapid.IntRange(0, 3).Draw(t, "staleList") == 0
 	c.Where = []string{"standalone", "graph", "graph"}[rapid.IntRange(0, 2).Draw(t, "where")]
 	if c.Where == "graph" {
 		c.Paradigm = []string{"invoke", "stream", "collect", "transform"}[rapid.IntRange(0, 3).Draw(t, "paradigm")]
@@ -353,6 +357,15 @@ func checkC17(c CaseC17) (*vkit.Failure, vkit.Meta) {
 					return "unknown(" + name + "," + input + ")", nil
 				}
 			}
+			var listOpts []compose.ToolsNodeOption
+			if c.StaleList {
+				m.Labels = append(m.Labels, "two-tool-list-options")
+				real := make([]tool.BaseTool, len(c.Tools))
+				for i, d := range c.Tools {
+					real[i] = mkTool(d)
+				}
+				listOpts = []compose.ToolsNodeOption{compose.WithToolList(mkTool(Tool17{Name: "nosuchtool", Kind: "both", Chunks: 1, Mark: "STALE:"})), compose.WithToolList(real...)}
+			}
 			tn, err := compose.NewToolNode(ctx, conf)
 			if err != nil {
 				return vkit.Failf("harness", "NewToolNode: %v", err)
@@ -431,9 +444,9 @@ func checkC17(c CaseC17) (*vkit.Failure, vkit.Meta) {
 				}
 				if c.Where == "standalone" {
 					if c.Paradigm == "invoke" {
-						got, rerr = tn.Invoke(ectx, msg)
+						got, rerr = tn.Invoke(ectx, msg, listOpts...)
 					} else {
-						sr, err := tn.Stream(ectx, msg)
+						sr, err := tn.Stream(ectx, msg, listOpts...)
 						if err != nil {
 							rerr = err
 							return
@@ -452,20 +465,21 @@ func checkC17(c CaseC17) (*vkit.Failure, vkit.Meta) {
 					return
 				}
 				opt := compose.WithCallbacks(rec.handler())
+				lopt := compose.WithToolsNodeOption(listOpts...)
 				switch c.Paradigm {
 				case "invoke":
-					got, rerr = r.Invoke(ectx, msg, opt)
+					got, rerr = r.Invoke(ectx, msg, opt, lopt)
 				case "stream":
-					sr, err := r.Stream(ectx, msg, opt)
+					sr, err := r.Stream(ectx, msg, opt, lopt)
 					if err != nil {
 						rerr = err
 						return
 					}
 					drain(sr)
 				case "collect":
-					got, rerr = r.Collect(ectx, schema.StreamReaderFromArray([]*schema.Message{msg}), opt)
+					got, rerr = r.Collect(ectx, schema.StreamReaderFromArray([]*schema.Message{msg}), opt, lopt)
 				case "transform":
-					sr, err := r.Transform(ectx, schema.StreamReaderFromArray([]*schema.Message{msg}), opt)
+					sr, err := r.Transform(ectx, schema.StreamReaderFromArray([]*schema.Message{msg}), opt, lopt)
 					if err != nil {
 						rerr = err
 						return
@@ -605,6 +619,35 @@ func genC13Tools(t *rapid.T) CaseC17 {
 	c := genC17(t)
 	for i := range c.Tools {
 		c.Tools[i].Fault = ""
+	}
+	if rapid.IntRange(0, 2).Draw(t, "severalFail") == 0 {
+		// no panic: two or more calls fail with ordinary errors when they are started - the node's error is still one of theirs
+		k := rapid.IntRange(2, len(c.Tools)).Draw(t, "nFailTools")
+		for i := 0; i < k; i++ {
+			c.Tools[i].Fault = "err"
+			c.Tools[i].EOF = false
+		}
+		for len(c.Calls) < 3 {
+			c.Calls = append(c.Calls, Call17{Tool: c.Tools[0].Name, ID: fmt.Sprintf("x%d", len(c.Calls)), Args: "a"})
+		}
+		for i := range c.Calls {
+			if c.Calls[i].Tool == "nosuchtool" {
+				c.Calls[i].Tool = c.Tools[len(c.Tools)-1].Name
+			}
+		}
+		c.Calls[0].Tool, c.Calls[len(c.Calls)-1].Tool = c.Tools[0].Name, c.Tools[1].Name
+		for i := range c.Calls {
+			for _, d := range c.Tools {
+				if d.Name == c.Calls[i].Tool && d.Kind == "utils" && !strings.HasPrefix(c.Calls[i].Args, "{") {
+					c.Calls[i].Args = `{"a":"x"}`
+				}
+			}
+		}
+		c.Order = nil
+		for range c.Calls {
+			c.Order = append(c.Order, rapid.IntRange(0, 500).Draw(t, "ord"))
+		}
+		return c
 	}
 	pi := rapid.IntRange(0, len(c.Tools)-1).Draw(t, "panicTool")
 	c.Tools[pi].Fault = "panic"
